@@ -11,8 +11,8 @@ import reactivex.operators as ops
 from ..common import UnitResult, case_rng, chunks, show, strict
 from ..single import SUB_AT, make_input
 from ..vlab import Lab, gen_timeline, show_timeline
-from ._c18_trace import (EPS, INF, Trace, check_buffers, check_end, check_top_term, check_windows, deliveries, teq,
-                         tlt, windows_to_buffers)
+from ._c18_trace import (INF, Trace, check_buffers, check_end, check_subscribed, check_top_term, check_windows,
+                         deliveries, teq, tlt, windows_to_buffers)
 
 ID = "C18"
 LEVEL = "exploration"
@@ -644,20 +644,29 @@ def run_case(seed: int, idx: int, res: UnitResult) -> None:
             res.note("clock_param", "%s/%s" % (case["clock"], "timedelta" if P["td"] else "number"))
         elif fam == "boundary":
             model = model_boundary(tr)
+            if case["kind"] != "sync":
+                probs.extend(check_subscribed(lab, tr, [("b", None)]))
         elif fam == "when":
             model = model_when(tr)
+            # the closing sequence of window k is obtained and subscribed when window k opens (window 0: at subscription)
+            probs.extend(check_subscribed(lab, tr, [("c%d" % k, s["open_cause"] if k > 0 else None)
+                                                    for k, s in enumerate(model["specs"]) if k > 0 or case["kind"] != "sync"]))
         else:
             model = model_toggle(tr)
             want = model["opened_values"]
             got = run.mapper_args[:len(want)]
-            if model["ignore_after"] == INF and [strict(v) for v in got] != [strict(v) for v in want]:
+            if [strict(v) for v in got] != [strict(v) for v in want]:
                 probs.append(("closing_mapper_args", "closing_mapper was called with %r, the openings emitted %r" % (run.mapper_args, want)))
+            probs.extend(check_subscribed(lab, tr, [("o", None)] + [("c%d" % k, s["open_cause"]) for k, s in enumerate(model["specs"])]))
         specs = model["specs"]
         if is_buffer:
             use = specs[:len(specs) - model["optional_tail"]]
             probs.extend(check_buffers(tr, top, windows_to_buffers(tr, use), model["ignore_after"]))
         else:
-            probs.extend(check_windows(tr, top, specs, model["optional_tail"], model["ignore_after"]))
+            # count (skip == count: "closed right after its last element"), time-or-count, boundaries and closing
+            # selector give non-overlapping windows: window k is closed before window k+1 is emitted
+            seq_rule = fam in ("toc", "boundary", "when") or (fam == "count" and P["skip"] in (None, P["count"]))
+            probs.extend(check_windows(tr, top, specs, model["optional_tail"], model["ignore_after"], sequential=seq_rule))
             if model["optional_tail"] and len([x for x in top.recv if x[0] == "N"]) == len(specs):
                 res.count("optional_trailing_empty_window_emitted")
         probs.extend(check_top_term(tr, top, model["top_term"], model["ignore_after"]))
